@@ -1,0 +1,48 @@
+//go:build verif
+
+package tree
+
+// Add-only accessors used by the verification harness in /verif (build tag "verif").
+// They expose or set private fields so that a tree can be built with an exact neighbour
+// order and its derived tables can be observed.  Nothing here is compiled without the tag.
+
+// VerifSetNeighbors sets the neighbour and branch arrays of a node.
+func (n *Node) VerifSetNeighbors(neigh []*Node, br []*Edge) {
+	n.neigh = neigh
+	n.br = br
+}
+
+// VerifSetEnds sets both ends of an edge.
+func (e *Edge) VerifSetEnds(left, right *Node) {
+	e.left = left
+	e.right = right
+}
+
+// VerifHashes returns the two partial hash codes of an edge.
+func (e *Edge) VerifHashes() (left, right uint64) {
+	return e.hashcodeleft, e.hashcoderight
+}
+
+// VerifTipIndexNames returns the keys of the tip-name index (unsorted).
+func (t *Tree) VerifTipIndexNames() []string {
+	names := make([]string, 0, len(t.tipIndex))
+	for k := range t.tipIndex {
+		names = append(names, k)
+	}
+	return names
+}
+
+// VerifTipIndexNode returns the node registered under a name in the tip-name index.
+func (t *Tree) VerifTipIndexNode(name string) *Node {
+	return t.tipIndex[name]
+}
+
+// VerifRootDepth returns the private root depth of a node.
+func (n *Node) VerifRootDepth() int {
+	return n.rootdepth
+}
+
+// VerifDepth returns the private depth of a node without the error of Depth().
+func (n *Node) VerifDepth() int {
+	return n.depth
+}
